@@ -542,10 +542,11 @@ fn thread_body(c: &SC, clock: &MockClock, cfg: &Cfg, sh: &Arc<Shared>, me: usize
                 // parked inside a maintenance pass), the write log never holds more than
                 // its 384 slots when a burst of inserts returns
                 let (_rq, wq) = c.verif_queue_lens();
-                if wq > 384 {
-                    Obs::Items(vec![(253, wq as u32)])
-                } else {
-                    Obs::Unit
+                match c.verif_queue_caps().1 {
+                    // (251: the capacity of the write log; 0 = it has none)
+                    None => Obs::Items(vec![(253, wq as u32), (251, 0)]),
+                    Some(bound) if wq > bound => Obs::Items(vec![(253, wq as u32), (251, bound as u32)]),
+                    _ => Obs::Unit,
                 }
             }
         };
@@ -757,7 +758,12 @@ fn superseded(all: &[Rec], ins: &Rec, k: u8, before: u64) -> Option<String> {
 fn check_history(prog: &Program, all: &[Rec], viol: &mut Vec<Violation>) {
     for r in all {
         if let (TOp::Burst(..), Obs::Items(left)) = (&r.op, &r.obs) {
-            let d = format!("T{}#{} {}: {} write ops are queued when the burst returns; the write log is bounded by 384, which is what bounds the overshoot between maintenance runs", r.thread, r.idx, r.op.text(), left[0].1);
+            let bound = left.get(1).map(|x| x.1).unwrap_or(0);
+            let d = if bound == 0 {
+                format!("T{}#{} {}: the write log has no capacity bound ({} ops queued when the burst returns); a bounded log is what bounds the overshoot between maintenance runs", r.thread, r.idx, r.op.text(), left[0].1)
+            } else {
+                format!("T{}#{} {}: {} write ops are queued when the burst returns; the write log is bounded by {bound}, which is what bounds the overshoot between maintenance runs", r.thread, r.idx, r.op.text(), left[0].1)
+            };
             viol.push(Violation { prop: "C04", sig: "sched:write-log-above-its-bound".into(), detail: d.clone(), witness: String::new() });
             viol.push(Violation { prop: "C09", sig: "sched:write-log-above-its-bound".into(), detail: d, witness: String::new() });
         }
@@ -1551,7 +1557,8 @@ pub fn family(name: &str, tier: &str) -> Vec<Program> {
                 }
             }
             // single-thread bursts far beyond the write queue, both housekeeping regimes
-            for n in [385u16, 449, 800, 2000] {
+            let wl = mini_moka::verif::constants().write_log_size as u16;
+            for n in [wl + 1, wl + 65, (wl + 65).max(800), (wl + 65).max(2000)] {
                 for keys in [1u8, 2, 5] {
                     for cap in [Some(0u64), Some(1), Some(10)] {
                         for beyond in [true, false] {
@@ -1585,7 +1592,8 @@ pub fn family(name: &str, tier: &str) -> Vec<Program> {
             }
             // an insert that ran the maintenance itself while another thread refilled the
             // whole write log behind it: it must run (or wait for) housekeeping again
-            for n in [384u16, 390] {
+            let wl = mini_moka::verif::constants().write_log_size as u16;
+            for n in [wl, wl + 6] {
                 let mut c = base(Some(10), None);
                 c.nkeys = 5;
                 c.beyond = false;
